@@ -82,6 +82,7 @@ pub fn run(ctx: &mut Ctx) {
         noncanonical: false,
         width_devs: true, // alt 1 of a master slot = the 8-byte unknown marker / 8-byte size field
         extras: true,
+        all_widths: false,
     };
     ctx.meta("rule", "cases: (tree, subset of masters encoded with unknown size, marker width); trees = every forest over V up to the node bound + the deep spines; all 2^m subsets; encoded by RefEncoder (1- and 8-byte all-ones markers) and, independently, by the real TagWriter with write_advanced(unknown). Excluded by construction: a global element as the first element after an unknown-size master's last descendant. Oracle: strict parse == flatten(tree) with RefEncoder offsets (Ends before the closing element), and == the all-known encoding's tags. Non-trivial: encodings where an unknown-size master is closed by something other than its own sibling.");
     ctx.meta("bounds", &format!("forests <= {} elements over V (5 master levels), all subsets, devs <= {}", p.max_nodes, p.devs));
